@@ -25,6 +25,8 @@ pub enum Sub {
     Loop(usize, Option<String>, String),
     LoopStart(usize, String),
     ForToLoop(usize, String),
+    /// the statement replaced by the preceding @@.replace must have exactly this (normalised) text
+    ReplacedText(String),
     Before(String, String),
     After(String, String),
     Replace(String, String),
@@ -63,6 +65,8 @@ pub enum Dir {
     /// method-call rewrite: `recv.NAME(args)` -> `FN(recv, args)` / `FN(&mut recv, args)` (declared per unit, R5)
     RewriteMethod(String, String, bool),
     SkelCfg(String),
+    /// call/type path rewrite: a path whose text equals A (after crate:: stripping) is replaced by B (declared per unit, R5)
+    RewritePath(String, String),
 }
 
 pub fn parse(text: &str, cdir: &str) -> Result<Vec<Dir>, String> {
@@ -103,6 +107,11 @@ pub fn parse(text: &str, cdir: &str) -> Result<Vec<Dir>, String> {
             }
             "include" => out.push(Dir::Include(arg.to_string())),
             "source" => out.push(Dir::Source(arg.to_string())),
+            "rewrite-path" => {
+                let parts: Vec<&str> = arg.split_whitespace().collect();
+                if parts.len() != 2 { return Err(format!("spec line {}: @@rewrite-path A B", i)); }
+                out.push(Dir::RewritePath(parts[0].to_string(), parts[1].to_string()));
+            }
             "rewrite-method" => {
                 let parts: Vec<&str> = arg.split_whitespace().collect();
                 if parts.len() < 2 { return Err(format!("spec line {}: @@rewrite-method NAME FN [mut]", i)); }
@@ -160,6 +169,7 @@ pub fn parse(text: &str, cdir: &str) -> Result<Vec<Dir>, String> {
                     "before" => take.subs.push(Sub::Before(arg.to_string(), b)),
                     "after" => take.subs.push(Sub::After(arg.to_string(), b)),
                     "replace" => take.subs.push(Sub::Replace(arg.to_string(), b)),
+                    "replaced-text" => take.subs.push(Sub::ReplacedText(b)),
                     "start" => take.subs.push(Sub::Start(b)),
                     "end-of-body" => take.subs.push(Sub::End(b)),
                     "attr" => {
